@@ -31,7 +31,10 @@ M64 = (1 << 64) - 1
 
 
 def keep(x, seed):
-    """Mirror of harness/src/est.rs::keep - the filter predicate of the P op."""
+    """Mirror of harness/src/est.rs::keep / keep2 - the filter predicate of the P op.  `seed` is an int (hash filter,
+    0 = none) or a string 't<hex>' (threshold filter: keep x >= threshold)."""
+    if isinstance(seed, str):
+        return not (x < common.h2f(seed[1:]))
     if seed == 0:
         return True
     h = common.bits(x) ^ ((seed * 0x9E3779B97F4A7C15) & M64)
@@ -227,6 +230,28 @@ def shard(desc):
                 seq_mark = c.op('O', 20) if not use_probe else None
                 cases.append(c)
                 plan.append((c, t, typ, kept, marks, seq_mark, (id(xs), fseed)))
+    for n, typ, use_probe in desc.get('ramps', []):
+        # a long ascending ramp: (a) unfiltered - the last reduction joins two halves of > 2^16 items with very different
+        # means; (b) with a threshold filter that drops all but one item of the first half - a tiny left partial result
+        # meets a right one > 65536 times larger
+        xs = [float(i) * 0.37 + rng.random() * 0.1 for i in range(n)]
+        for fseed in (0, 't' + common.f2h(xs[n // 2 - 1])):
+            t = ('Probe' + typ) if use_probe else typ
+            th = rng.choice([2, 4, 16])
+            c = Case('%s-%d' % (desc['name'], k), t, meta={'threads': th, 'min_len': 0, 'max_len': 0, 'mode': 'r', 'delay_seed': 0,
+                                                           'filter_seed': fseed, 'n': n})
+            k += 1
+            c.op('P', 0, th, 0, 0, 'r', 0, fseed, xs)
+            marks = [c.op('O', 0)]
+            kept = [x for x in xs if keep(x, fseed)]
+            c.op('N', 20)
+            seq_mark = None
+            if not use_probe:
+                c.op('A', 20, kept)
+                seq_mark = c.op('O', 20)
+            cases.append(c)
+            plan.append((c, t, typ, kept, marks, seq_mark, (id(xs), str(fseed))))
+            res.count('ramp_collects')
     logs = run_driver(desc['binary'], ''.join(c.text() for c in cases), timeout=3600)
     replays = []
     for c, t, typ, xs, marks, seq_mark, dkey in plan:
@@ -428,6 +453,9 @@ def run(tier, seed):
                      'seed': seed * 1000003 + s * 7919 + sum(map(ord, variant))}
                 d.update(cfg)
                 descs.append(d)
+            for i, (tname, pr) in enumerate([('Kurtosis', False), ('Mean', True), ('M6', False), ('Variance', True)][:(4 if tier == 'thorough' else 2)]):
+                descs.append({'name': 'ramp%s%d' % (variant[0], i), 'variant': variant, 'binary': binary, 'lengths': [], 'data_per_len': 0,
+                              'cfg_per_data': 0, 'repeats': 0, 'ramps': [(140000 if tier == 'quick' else 300000, tname, pr)], 'seed': seed * 13 + i})
             if variant == 'release':
                 for i, n in enumerate(big):
                     descs.append({'name': 'big%d' % i, 'variant': variant, 'binary': binary, 'lengths': [n], 'data_per_len': 1,
@@ -437,7 +465,7 @@ def run(tier, seed):
             miri_leg(seed, 16, total)
     except common.Inconclusive as e:
         total.inconclusive.append(str(e))
-    need = {'parallel_collects': 300, 'probe_collects': 100, 'tree_replays': 50, 'collects_with_multiple_leaves': 50,
+    need = {'ramp_collects': 4, 'parallel_collects': 300, 'probe_collects': 100, 'tree_replays': 50, 'collects_with_multiple_leaves': 50,
             'collects_with_filter_stage': 50, 'trees_with_empty_into_empty_merge': 5,
             'collects_with_delay_injection': 50, 'collects_by_ref': 50, 'collects_by_value': 50, 'distinct_merge_trees': 20}
     if tier == 'thorough':
